@@ -186,7 +186,11 @@ pub fn lit_text(v: i64, kind: u8) -> String {
         2 => format!("${:X}", v),
         3 => format!("0b{:b}", v),
         4 => format!("0{:o}", v),
-        5 => format!("'{}'", (v as u8) as char),
+        // a character literal stands for its code point
+        5 => match char::from_u32(v as u32) {
+            Some(c) if v >= 0x20 && v <= 0x10ffff && c != '\'' => format!("'{}'", c),
+            _ => format!("{}", v),
+        },
         6 => format!("0x{:X}", v),
         7 => format!("${:x}", v),
         _ => format!("{}", v),
